@@ -145,3 +145,49 @@ Definition violations cfg cases := numbered (case_violation cfg) cases.
 Definition idx_not_inj cases :=
   numbered (fun c => app (if idx_inj_b (o_map (c_main c)) (o_pat (c_main c)) then [] else [true])
                      (match c_flip c with Some o => if idx_inj_b (o_map o) (o_pat o) then [] else [false] | None => [] end)) cases.
+
+(* ---- model-level counterexample search, used when cfg_ok (the transcribed code shape) breaks:
+   small patterns over two names, each the canonical witness of one premise, against `a + b`,
+   `(a*b) + c` and `a + f(1)`; a candidate is a counterexample when the implementation model succeeds
+   with a State other than the reference semantics' one. *)
+Definition id_ (s : string) : val := VNode "Ident" [("Name", VStr s)].
+Definition bin_ (x : val) (op : Z) (y : val) : val := VNode "BinaryExpr" [("X", x); ("Op", VTok op); ("Y", y)].
+Definition paren_ (x : val) : val := VNode "ParenExpr" [("X", x)].
+Definition call_ (f : val) (args : list val) : val := VNode "CallExpr" [("Fun", f); ("Args", VList LExpr false args)].
+Definition lit_ (s : string) : val := VNode "BasicLit" [("Kind", VTok 5); ("Value", VStr s)].
+Definition t_a_plus_b := bin_ (id_ "a") 12 (id_ "b").
+Definition t_ab_plus_c := bin_ (paren_ (bin_ (id_ "a") 14 (id_ "b"))) 12 (id_ "c").
+Definition t_a_plus_f1 := bin_ (id_ "a") 12 (call_ (id_ "f") [lit_ "1"]).
+
+Definition pid_ (p : pat) : pat := PNode "Ident" [("Name", p)].
+Definition pbin_ (x op y : pat) : pat := PNode "BinaryExpr" [("X", x); ("Op", op); ("Y", y)].
+Definition pcall_ (f a : pat) : pat := PNode "CallExpr" [("Fun", f); ("Args", a)].
+Definition bx (sub : pat) := PBinding "x" 0 sub.
+Definition by_ (sub : pat) := PBinding "y" 1 sub.
+
+Definition cex_candidates : list (list string * pat * val) :=
+  [ (* Not leaks *)
+    (["x"; "y"], pbin_ (PNot (pbin_ (bx (pid_ PAny)) (PString "-") PAny)) (PString "+") PAny, t_ab_plus_c);
+    (* failed alternative not popped *)
+    (["x"; "y"], POr [pbin_ (bx PNone) (PString "-") PAny; pbin_ PAny (PString "+") (by_ PNone)], t_a_plus_b);
+    (* inner successful Or inside a failing outer alternative (merge must propagate) *)
+    (["x"; "y"], POr [pbin_ (POr [bx (pid_ PAny)]) (PString "-") PAny; pbin_ PAny (PString "+") (by_ PNone)], t_a_plus_b);
+    (* binding before the Or must survive the pop of a failed alternative *)
+    (["x"; "y"], pbin_ (bx (pid_ PAny)) (PString "+") (POr [pcall_ (by_ (pid_ PAny)) (PList PNone PNone); pcall_ PAny PAny]), t_a_plus_f1);
+    (* double negation *)
+    (["x"; "y"], pbin_ (PNot (PNot (pbin_ (bx PNone) (PString "*") PAny))) (PString "+") (by_ PNone), t_ab_plus_c);
+    (* successful alternative keeps its bindings *)
+    (["x"; "y"], POr [pbin_ (bx PNone) (PString "-") PAny; pbin_ (bx PNone) (PString "+") (by_ PNone)], t_a_plus_b)
+  ].
+Definition is_cex (cfg : matcher_cfg) (c : list string * pat * val) : bool :=
+  let '(mapping, p, t) := c in
+  match run_impl cfg no_oracle mapping AF FUEL p t with
+  | RDone true _ s =>
+      match run_spec cfg no_oracle AF FUEL p t with
+      | RDone true _ s' => negb (state_eqb s s')
+      | _ => true
+      end
+  | _ => false
+  end.
+Definition find_cex (cfg : matcher_cfg) : list nat :=
+  map fst (filter (fun ic => is_cex cfg (snd ic)) (combine (seq 0 (List.length cex_candidates)) cex_candidates)).
